@@ -7,7 +7,7 @@ import time
 import vf
 
 PID = "C07"
-ANY_COMMAND = {"AdvertisedVipStaleGatewayLink"}
+ANY_COMMAND = {"AdvertisedVipStaleGatewayLink", "AdvertisedVipCurrentProxyImported"}
 DOC = {
     "NoOrphanService/NoOrphanCheck/NoOrphanCoordinate": "no instance or check without its node, no service check without its instance, no coordinate without node",
     "CascadeComplete": "a node (service) that disappears in a step leaves none of its services, checks, coordinates (checks) behind",
